@@ -106,14 +106,14 @@ class Runner:
     kind = op[0]
     if kind == 'set_x':
       self.xi = op[1]
-      self.real.x = self.pool[self.xi].copy()
+      self.real.x = self.pool[self.xi]
       self._wrote()
     elif kind == 'set_y':
       self.yi = op[1]
       self.xi = None
       self.which = op[2] if len(op) > 2 else 0
       self.pool = self.pools[self.which]
-      self.real.y = self.pool[self.yi].copy()
+      self.real.y = self.pool[self.yi]
       self._wrote()
     elif kind == 'clear_x':
       self.xi = None
@@ -146,6 +146,14 @@ class Runner:
       self._check(q, where='teardown')
     self._check('tbrfit', (100.0, 200.0), where='teardown')
     self._check('estimate_required_impact', (0.9,), where='teardown')
+    # the caller's series were handed over without copying: they must not have been modified
+    n2 = self.spec.get('n2', self.n)
+    clean = [make_pool(self.n, self.spec['params']['n_test'], self.spec['factor'], self.spec['noise']),
+             make_pool(n2, self.spec['params']['n_test'], self.spec['factor'][:n2], [e[:n2] for e in self.spec['noise']])]
+    for a, b in zip(self.pools, clean):
+      if not all(np.array_equal(x, y) for x, y in zip(a, b)):
+        self.viol.append(('C08:caller-series-modified', {'step': len(self.spec['ops'])}))
+        break
 
   def outcome(self):
     cls = ['reads:%s' % ('0' if not self.reads else '1-5' if self.reads <= 5 else '>5'),
